@@ -169,11 +169,43 @@ def probe_part(ctx, c, only_ops=None, modes=('nrt', 'rt')):
                             'how': 'SC3_MODE=%s PYTHONPATH=$SC3_REPO:/verif/harness python harness/impl/c05_kscript.py <in.json with {"cases":[],"probes":[probe]}> out.json' % mode}))
 
 
+def generic_probe_part(ctx, c, key, outkey, gen, expected, sizes, theorem, label):
+    """law probes with the harness's own oracle, NRT and RT; an uncompleted RT probe is counted, never failed"""
+    for mode, n in sizes:
+        rt = mode == 'rt'
+        prs = [gen(ctx.rng, k, rt) for k in range(n)]
+        res = ctx.impl('c05_kscript', {key: prs, 'seed': ctx.seed}, mode=mode, timeout=900)[outkey]
+        c.evaluations += len(prs)
+        nrep = 0
+        for pr, o in zip(prs, res):
+            bad = expected(pr, o, mode)
+            if bad is None:
+                c.count('%s:%s not completed in time (machine load); not compared' % (mode, label))
+                continue
+            c.count('%s:%s:%s' % (mode, label, pr.get('route', '') or ('host %s' % K.clock_name(pr['enders'][0]['clock']) if 'enders' in pr else '')))
+            c.nontriv((label, mode, json.dumps(pr, sort_keys=True)))
+            if bad and nrep < 2:
+                nrep += 1
+                what, got, exp = bad[0]
+                c.failures.append(Failure(
+                    'correspondence', '%s %s: %s is %s, expected %s. Probe: %s' % (mode.upper(), label, what, got, exp, json.dumps(pr)),
+                    theorem=theorem, found_input=True,
+                    replay={'probe': pr, 'observed': o, 'differences': bad, 'mode': mode, 'payload_key': key,
+                            'how': 'SC3_MODE=%s PYTHONPATH=$SC3_REPO:/verif/harness python harness/impl/c05_kscript.py <in.json with {"%s":[probe]}> out.json' % (mode, key)}))
+
+
+def alongside_part(ctx, c):
+    generic_probe_part(ctx, c, 'alongside', 'alongside_out', K.gen_alongside, lambda pr, o, mode: K.alongside_expected(pr, o),
+                       (('nrt', ctx.n(8, 80)), ('rt', ctx.n(8, 48))), 'kth_resume_time',
+                       'survivors next to tasks that end or raise')
+
+
 def correspond(ctx):
     c = Corr()
     cases, outs = nrt_part(ctx, c, ctx.n(150, 1500), MINE, None)
     rt_part(ctx, c, ctx.n(36, 270))
     probe_part(ctx, c)
+    alongside_part(ctx, c)
     c.rule = ('script programs (nested routines, yields, sends, tempo changes, plays across SystemClock/AppClock/TempoClocks) compiled to real '
               'generator functions; NRT: exact comparison of the whole event log (logical seconds and beats at every resumption, play instants, '
               'stamped bundles), of the score and of elapsed_time() with the model of the repaired behaviour, disagreements classified by the '
